@@ -381,6 +381,153 @@ func (e *Engine) lookupNative(fi *FnInfo) *Native {
 			e.writeElems(s, sl, 0, vals)
 			return nil
 		})
+	// ---- internal/bytealg primitives (assembly in the real runtime)
+	case "internal/bytealg.IndexByteString", "internal/bytealg.IndexByte", "internal/bytealg.LastIndexByteString", "internal/bytealg.LastIndexByte":
+		last := strings.Contains(name, "Last")
+		return simple(func(e *Engine, s *State, gi int, args []Value) Value {
+			bs := e.bytesOf(s, args[0])
+			c := args[1].(*Term)
+			if last {
+				for i := len(bs) - 1; i >= 0; i-- {
+					if e.decide(s, ts.Eq(bs[i], c)) {
+						return ts.Const(64, uint64(i))
+					}
+				}
+				return ts.Const(64, ^uint64(0))
+			}
+			for i := range bs {
+				if e.decide(s, ts.Eq(bs[i], c)) {
+					return ts.Const(64, uint64(i))
+				}
+			}
+			return ts.Const(64, ^uint64(0))
+		})
+	case "internal/bytealg.CountString", "internal/bytealg.Count":
+		return simple(func(e *Engine, s *State, gi int, args []Value) Value {
+			bs := e.bytesOf(s, args[0])
+			c := args[1].(*Term)
+			n := 0
+			for i := range bs {
+				if e.decide(s, ts.Eq(bs[i], c)) {
+					n++
+				}
+			}
+			return ts.Const(64, uint64(n))
+		})
+	case "internal/bytealg.IndexString", "internal/bytealg.Index":
+		return simple(func(e *Engine, s *State, gi int, args []Value) Value {
+			a, b := e.bytesOf(s, args[0]), e.bytesOf(s, args[1])
+			for i := 0; i+len(b) <= len(a); i++ {
+				eq := ts.True
+				for j := range b {
+					eq = ts.And(eq, ts.Eq(a[i+j], b[j]))
+				}
+				if e.decide(s, eq) {
+					return ts.Const(64, uint64(i))
+				}
+			}
+			return ts.Const(64, ^uint64(0))
+		})
+	case "internal/bytealg.Equal", "bytes.Equal":
+		return simple(func(e *Engine, s *State, gi int, args []Value) Value {
+			a, b := e.bytesOf(s, args[0]), e.bytesOf(s, args[1])
+			if len(a) != len(b) {
+				return ts.False
+			}
+			eq := ts.True
+			for i := range a {
+				eq = ts.And(eq, ts.Eq(a[i], b[i]))
+			}
+			return eq
+		})
+	case "internal/bytealg.Compare", "internal/bytealg.CompareString", "strings.Compare", "bytes.Compare", "runtime.cmpstring":
+		return simple(func(e *Engine, s *State, gi int, args []Value) Value {
+			a, b := e.bytesOf(s, args[0]), e.bytesOf(s, args[1])
+			for i := 0; i < len(a) && i < len(b); i++ {
+				if e.decide(s, ts.Eq(a[i], b[i])) {
+					continue
+				}
+				if e.decide(s, ts.Cmp(OpUlt, a[i], b[i])) {
+					return ts.Const(64, ^uint64(0))
+				}
+				return ts.Const(64, 1)
+			}
+			switch {
+			case len(a) < len(b):
+				return ts.Const(64, ^uint64(0))
+			case len(a) > len(b):
+				return ts.Const(64, 1)
+			}
+			return ts.Const(64, 0)
+		})
+	case "internal/bytealg.MakeNoZero":
+		return simple(func(e *Engine, s *State, gi int, args []Value) Value {
+			n := e.concreteInt(args[0], "MakeNoZero length")
+			el := make([]Value, n)
+			for i := range el {
+				el[i] = ts.Const(8, 0)
+			}
+			id := s.alloc(&Object{v: &ArrayV{el}, label: "MakeNoZero"})
+			return Slice{obj: id, ln: n, cap: n}
+		})
+	case "(*strings.Builder).copyCheck":
+		return simple(func(e *Engine, s *State, gi int, args []Value) Value { return nil })
+	case "(*strings.Builder).String":
+		path := e.structFieldPath(recvElem(fi), "buf")
+		return simple(func(e *Engine, s *State, gi int, args []Value) Value {
+			sl := e.load(s, subPtr(args[0].(Ptr), path)).(Slice)
+			return mkStr(e.bytesOf(s, sl))
+		})
+	// ---- timers: channels that fire (close) only when the harness has armed timers
+	case "time.After", "time.Tick":
+		return simple(func(e *Engine, s *State, gi int, args []Value) Value {
+			id, o := e.newCtx(s, e.bgCtx, "time.After")
+			o.ctx.hasDeadline = true
+			o.ctx.deadline = ts.Const(64, 0)
+			o.ctx.armed = s.timers
+			return ChanV{obj: e.obj(s, id).ctx.done}
+		})
+	case "time.NewTimer", "time.AfterFunc":
+		isAF := name == "time.AfterFunc"
+		return simple(func(e *Engine, s *State, gi int, args []Value) Value {
+			id, o := e.newCtx(s, e.bgCtx, name)
+			o.ctx.hasDeadline = true
+			o.ctx.deadline = ts.Const(64, 0)
+			o.ctx.armed = s.timers
+			if isAF {
+				o.ctx.afterFuncs = append(o.ctx.afterFuncs, args[1].(*FuncV))
+			}
+			tt := fi.fn.Signature.Results().At(0).Type().Underlying().(*types.Pointer).Elem()
+			tv := e.zero(tt).(*StructV)
+			st := tt.Underlying().(*types.Struct)
+			f := append([]Value(nil), tv.f...)
+			for i := 0; i < st.NumFields(); i++ {
+				if st.Field(i).Name() == "C" && !isAF {
+					f[i] = ChanV{obj: e.obj(s, id).ctx.done}
+				}
+			}
+			tid := s.alloc(&Object{v: &StructV{f}, label: "time.Timer"})
+			e.timerCtx(s)[tid] = id
+			return Ptr{obj: tid}
+		})
+	case "(*time.Timer).Stop":
+		return visible(func(e *Engine, s *State, gi int, args []Value) Value {
+			cid, ok := e.timerCtx(s)[args[0].(Ptr).obj]
+			if !ok {
+				return ts.False
+			}
+			o := e.obj(s, cid)
+			if o.ctx.isDone || !o.ctx.armed && len(o.ctx.afterFuncs) == 0 && !o.ctx.hasDeadline {
+				return ts.False
+			}
+			w := e.wobj(s, cid)
+			was := !w.ctx.isDone
+			w.ctx.armed = false
+			w.ctx.afterFuncs = nil
+			return ts.Bool(was)
+		})
+	case "(*time.Timer).Reset":
+		return visible(func(e *Engine, s *State, gi int, args []Value) Value { return ts.True })
 	case "runtime.Gosched":
 		return visible(func(e *Engine, s *State, gi int, args []Value) Value { return nil })
 	case "runtime.KeepAlive":
@@ -1095,3 +1242,31 @@ func (e *Engine) itoa(s *State, gi int, x *Term) Value {
 }
 
 var _ = os.Stderr
+
+// bytesOf returns the byte terms of a string or []byte value.
+func (e *Engine) bytesOf(s *State, v Value) []*Term {
+	switch x := v.(type) {
+	case string, *SymStr:
+		return e.strBytes(v)
+	case Slice:
+		if x.obj == 0 {
+			return nil
+		}
+		arr := e.sliceArr(s, x)
+		out := make([]*Term, x.ln)
+		for i := 0; i < x.ln; i++ {
+			out[i] = arr.e[x.off+i].(*Term)
+		}
+		return out
+	}
+	panic(engineErr(fmt.Sprintf("bytesOf: %T", v)))
+}
+
+// timerCtx maps time.Timer objects to their hidden expiry context (engine-wide table keyed by
+// object id; ids are per path but the table is only consulted within the path that created them).
+func (e *Engine) timerCtx(s *State) map[int]int {
+	if s.timersMap == nil {
+		s.timersMap = map[int]int{}
+	}
+	return s.timersMap
+}
